@@ -1307,9 +1307,16 @@ struct StrDriver {
         }
         S& v            = *obj[a];
         size_t const sz = model[a].size();
-        int const var   = static_cast<int>(st.k[2] % 12);
+        int const var   = static_cast<int>(st.k[2] % 13);
         Char sink       = Char(0);
         S const& cv     = v;
+        if (var == 12) {
+            // replace(pos, count, str, pos2, count2) with pos2 beyond str.size()
+            size_t const pos2 = static_cast<size_t>(beyond(sz + 1, st.flt));
+            ctx.log.kv("pos2", static_cast<long long>(pos2));
+            call(a, true, false, [&] { v.replace(0, 0, cv, pos2, 1); });
+            return;
+        }
         if (var >= 8) {
             // replace with a start position beyond size(): std::basic_string throws out_of_range, here a precondition
             size_t const pos = static_cast<size_t>(beyond(sz + 1, st.flt));
